@@ -2,9 +2,12 @@ import J5V.Pipe.Walk
 /-!
 # C16 — `buildListRequest` (`internal/j5client/list.go`): which list rules take effect (core only)
 
-The callback given to `WalkSchemaFields` looks at the property's schema: enum fields honour a
-filtering rule; among the scalars bool / key / oneof honour filtering, float / integer / timestamp
-filtering and sorting, string searching; any, array, bytes, date, decimal, map, object: "do nothing".
+The callback given to `WalkSchemaFields` looks at the property's schema: enum fields
+(`*j5schema.EnumField`) honour a filtering rule; among the scalars (`*j5schema.ScalarSchema`) bool /
+key honour filtering, float / integer / timestamp filtering and sorting, string searching; bytes,
+date, decimal: "do nothing". The arms for any / array / map / object / oneof inside the scalar
+switch are never reached (those fields are no `ScalarSchema`), so the list rules of a oneof field
+(which the compiler does emit) have no effect on the list request.
 -/
 namespace J5V.Pipe
 open J5V.Compile
@@ -22,7 +25,8 @@ structure LRules where
 /-- the rules that reach the list request, given the rules present on the property -/
 def listEffect (k : LKind) (r : LRules) : LRules :=
   match k with
-  | .enum | .bool | .key | .oneof => { filter := r.filter, sort := false, search := false }
+  | .enum | .bool | .key => { filter := r.filter, sort := false, search := false }
+  | .oneof => { filter := false, sort := false, search := false }
   | .float | .integer | .timestamp => { filter := r.filter, sort := r.sort, search := false }
   | .string => { filter := false, sort := false, search := r.search }
   | .other => { filter := false, sort := false, search := false }
